@@ -91,6 +91,124 @@ example : idx0 wEmptyProg = none ∧ idx1 wEmptyProg = none := by decide
 /-- non-vacuity: a tree without typed nils whose walk is nil-free and complete -/
 example : tnilCount (.node .ExpressionStatement 0 0 0 (.cons (.node .Identifier 1 0 1 .nil) .nil)) = 0 := by decide
 
+/-! ### spans (ast/node.go Idx0/Idx1) -/
+
+mutual
+/-- SPANS NESTED (transitive form): if every parent/child pair is nested (`nestedAll`), then EVERY descendant's span lies
+    within the span of the node — by induction over all trees. -/
+theorem spans_within : ∀ (t : T) (p0 p1 : Int), nestedAll t = true → idx0 t = some p0 → idx1 t = some p1 →
+    ∀ s ∈ spans t, p0 ≤ s.1 ∧ s.2 ≤ p1 ∧ s.1 ≤ s.2
+  | .absent, _, _, _, _, _ => by intro s hs; simp [spans] at hs
+  | .tnil, _, _, _, _, _ => by intro s hs; simp [spans] at hs
+  | .node k a b l kids, p0, p1, hn, h0, h1 => by
+    intro s hs
+    simp only [nestedAll, h0, h1, Bool.and_eq_true, decide_eq_true_eq] at hn
+    simp only [spans, h0, h1, List.mem_append, List.mem_singleton] at hs
+    rcases hs with hs | hs
+    · subst hs; exact ⟨Int.le_refl _, Int.le_refl _, hn.1⟩
+    · exact spansL_within kids p0 p1 hn.2 s hs
+theorem spansL_within : ∀ (ts : TS) (p0 p1 : Int), kidsWithin p0 p1 ts = true →
+    ∀ s ∈ spansL ts, p0 ≤ s.1 ∧ s.2 ≤ p1 ∧ s.1 ≤ s.2
+  | .nil, _, _, _ => by intro s hs; simp [spansL] at hs
+  | .cons .absent ts, p0, p1, h => by
+    intro s hs
+    simp only [kidsWithin] at h
+    simp only [spansL, spans, List.nil_append] at hs
+    exact spansL_within ts p0 p1 h s hs
+  | .cons .tnil ts, p0, p1, h => by
+    intro s hs
+    simp only [kidsWithin] at h
+    simp only [spansL, spans, List.nil_append] at hs
+    exact spansL_within ts p0 p1 h s hs
+  | .cons (.node k a b l kids) ts, p0, p1, h => by
+    intro s hs
+    simp only [kidsWithin, Bool.and_eq_true] at h
+    obtain ⟨⟨hw, hn⟩, hr⟩ := h
+    simp only [spansL, List.mem_append] at hs
+    rcases hs with hs | hs
+    · cases h0 : idx0 (.node k a b l kids) with
+      | none => simp [h0] at hw
+      | some c0 =>
+        cases h1 : idx1 (.node k a b l kids) with
+        | none => simp [h0, h1] at hw
+        | some c1 =>
+          simp only [h0, h1, decide_eq_true_eq] at hw
+          have := spans_within (.node k a b l kids) c0 c1 hn h0 h1 s hs
+          omega
+    · exact spansL_within ts p0 p1 hr s hs
+end
+
+/-- … hence if the root span lies inside the file, every node's span does -/
+theorem spans_in_file (t : T) (p0 p1 len : Int) (hn : nestedAll t = true) (h0 : idx0 t = some p0) (h1 : idx1 t = some p1)
+    (hlo : 1 ≤ p0) (hhi : p1 ≤ len + 1) : ∀ s ∈ spans t, 1 ≤ s.1 ∧ s.1 ≤ s.2 ∧ s.2 ≤ len + 1 := by
+  intro s hs
+  have := spans_within t p0 p1 hn h0 h1 s hs
+  omega
+
+
+theorem chain_bounds : ∀ (r : List (Int × Int)) (x y : Int), x ≤ y → chainFrom y r = true →
+    y ≤ lastSnd y r ∧ ∀ s ∈ r, x ≤ s.1 ∧ s.2 ≤ lastSnd y r
+  | [], x, y, _, _ => ⟨Int.le_refl _, by simp⟩
+  | (x', y') :: r, x, y, hxy, hc => by
+    simp only [chainFrom, Bool.and_eq_true, decide_eq_true_eq] at hc
+    have ih := chain_bounds r x' y' hc.1.2 hc.2
+    simp only [lastSnd]
+    refine ⟨by omega, fun s hs => ?_⟩
+    simp only [List.mem_cons] at hs
+    rcases hs with hs | hs
+    · subst hs; simp only; omega
+    · have := ih.2 s hs; omega
+
+theorem idx1Last_kidSpans : ∀ (ts : TS) (t : T) (x y : Int) (r : List (Int × Int)),
+    kidSpans (.cons t ts) = some ((x, y) :: r) → idx1Last (.cons t ts) = some (lastSnd y r)
+  | .nil, t, x, y, r, h => by
+    simp only [kidSpans] at h
+    cases h0 : idx0 t <;> cases h1 : idx1 t <;> simp [h0, h1] at h
+    obtain ⟨⟨_, rfl⟩, rfl⟩ := h
+    simp [idx1Last, lastSnd, h1]
+  | .cons u us, t, x, y, r, h => by
+    simp only [kidSpans] at h
+    cases h0 : idx0 t <;> cases h1 : idx1 t <;> simp [h0, h1] at h
+    cases hk : kidSpans (.cons u us) with
+    | none => simp [kidSpans] at hk; simp [hk] at h
+    | some r' =>
+      have hk' := hk
+      simp only [kidSpans] at hk'
+      rw [hk'] at h
+      simp at h
+      obtain ⟨⟨rfl, rfl⟩, rfl⟩ := h
+      cases r' with
+      | nil =>
+        simp only [kidSpans] at hk
+        cases g0 : idx0 u <;> cases g1 : idx1 u <;> cases g2 : kidSpans us <;> simp [g0, g1, g2] at hk
+      | cons p r'' =>
+        obtain ⟨x', y'⟩ := p
+        rw [idx1Last]
+        simp only [lastSnd]
+        exact idx1Last_kidSpans us u x' y' r'' hk
+
+/-- SPANS NESTED (derived spans): for the node kinds whose span is computed from their children, if the children all have
+    spans and stand in source order, then the node's span is exactly [first child's Idx0, last child's Idx1) and every
+    child's span lies within it. -/
+theorem derived_nested (k : Kind) (hk : isDerived k = true) (a b l : Int) (t : T) (ts : TS) (x y : Int) (r : List (Int × Int))
+    (hks : kidSpans (.cons t ts) = some ((x, y) :: r)) (hxy : x ≤ y) (hc : chainFrom y r = true) :
+    idx0 (.node k a b l (.cons t ts)) = some x ∧ idx1 (.node k a b l (.cons t ts)) = some (lastSnd y r) ∧
+      ∀ s ∈ (x, y) :: r, x ≤ s.1 ∧ s.2 ≤ lastSnd y r := by
+  have hl := idx1Last_kidSpans ts t x y r hks
+  have h0 : idx0 t = some x := by
+    simp only [kidSpans] at hks
+    cases h0 : idx0 t <;> cases h1 : idx1 t <;> cases h2 : kidSpans ts <;> simp [h0, h1, h2] at hks
+    exact congrArg some hks.1.1
+  have cb := chain_bounds r x y hxy hc
+  refine ⟨?_, ?_, fun s hs => ?_⟩
+  · cases k <;> simp [isDerived] at hk <;> simp [idx0, h0]
+  · cases k <;> simp [isDerived] at hk <;> (simp only [idx1]; exact hl)
+  · simp only [List.mem_cons] at hs
+    rcases hs with hs | hs
+    · subst hs; exact ⟨Int.le_refl _, cb.1⟩
+    · exact cb.2 s hs
+
+
 /-! ### early errors (jump statements, labels, return, try) -/
 
 theorem inv_drop {c : Ctx} {p : List Nat} (h : Inv c p) : Inv c [] := ⟨h.1, by simp⟩
